@@ -46,8 +46,8 @@ MANIFEST = dict(
     level="model_checking",
     text="TLC checks nine invariants (exactly-one, rotation, window = earliest open slot, stamped header verifies, wake-up inside window) "
          "on every parameter tuple within bounds (n<=7, slot<=3 s, half-second ticks, >=3 rounds, both special heights); the real "
-         "GetMinerDistance/GetDeputyByDistance/GetCorrectMiner/GetNextMineWindow/getSleepTime/VerifyMiner are evaluated on every one of "
+         "GetMinerDistance/GetDeputyByDistance/GetCorrectMiner/GetNextMineWindow/getSleepTime/VerifyMiner/PrepareHeader (the account the miner's own node stamps) are evaluated on every one of "
          "those tuples plus a seeded grid (n<=41, 1000 rounds, ms offsets) and each output row is validated by TLC against the spec.",
-    note="Trusts TLC and the transcription-free declarative operators Entitled/Start; the real functions are called directly on a real deputynode.Manager with two terms "
-         "(height 1, normal, reward height); wall-clock never enters (times are arguments).",
+    note="Trusts TLC and the transcription-free declarative operators Entitled/Start; the real functions are called directly on a real deputynode.Manager with two terms of DIFFERENT sizes whose common nodes may mine for different accounts "
+         "(height 1, normal heights of both terms, interim heights where the next term is already elected, first block of the new term); TermInCharge/FirstOfTerm in ScheduleOps.tla say which term's deputies count; wall-clock never enters (times are arguments).",
     technique="TLA+ spec (Schedule/ScheduleOps) model-checked by TLC + trace validation of real-function output rows (TraceSchedule)")
